@@ -25,6 +25,7 @@ func checkC17(c *Ctx, r *Report) {
 	c17R5(c, r)
 	c17R6(c, r)
 	c17Validity(c, r)
+	c17HashCase(c, r)
 	c17IterLoop(c, r)
 	c17KeyTag(c, r)
 	r.rule("C17.R5.ecdsa-widths", 1, "ECDSA keys are written and read with RFC 6605's coordinate widths per algorithm")
